@@ -306,6 +306,32 @@ def matrix_cases(tier, seed, stores=("local",)):
                 p1, d = gen.e_set_const(p0, p0["_ids"][what])
             d.update({"position": what, "import_form": form, "variant": "local_imports"})
             emit("local:%s@%s" % (form, what), p0, p1, d)
+    # D10: two variables of the same name in two modules, both read by one function through their modules; the values are
+    # swapped, then made equal, then both changed to another equal value
+    for pos in ("D", "A"):
+        p0 = base_program("pm%d" % k)
+        k += 1
+        ids = p0["_ids"]
+        fmod = p0["fns"][ids[pos]]["module"]
+        mods_before = [m for m in (ids["leaf"], ids["mid"]) if p0["modules"].index(m) <= p0["modules"].index(fmod)]
+        if len(mods_before) < 2:
+            mods_before = [ids["leaf"], fmod]
+        va = gen.add_var(p0, mods_before[0], "BATCH", "int", value="1", vid="v_BATCH_a")
+        vb = gen.add_var(p0, mods_before[1], "BATCH", "int", value="2", vid="v_BATCH_b")
+        for vid in (va, vb):
+            vm = p0["vars"][vid]["module"]
+            p0["order"][vm].remove(("var", vid))
+            p0["order"][vm].insert(0, ("var", vid))
+            p0["fns"][ids[pos]]["reads"].append([vid, "modattr"])
+        vers = [p0]
+        for (x, y) in (("2", "1"), ("3", "3"), ("4", "4"), ("1", "2")):
+            q = gen.clone(vers[-1])
+            q["vars"][va]["value"], q["vars"][vb]["value"] = x, y
+            vers.append(q)
+        descs = dict(((i, i + 1), {"kind": "set_var", "var": "BATCH", "var_kind": "int", "site": ["V", "BATCH"], "position": pos, "variant": "same-name-two-modules"}) for i in range(4))
+        for store in stores:
+            cases.append(_case("samename@%s|restart|%s" % (pos, store), vers, descs, history_restart([0, 1, 2, 3, 4]), store))
+            cases.append(_case("samename@%s|reload|%s" % (pos, store), vers, descs, history_same_process([0, 1, 2, 3, 4], "reload"), store))
     # D8: entry styles: data-function entry called directly / through eval / kept
     for style in ("call", "eval"):
         for pos in ("A", "C", "main"):
